@@ -44,14 +44,23 @@ func scenario(p params, bounds []int) *vexp.Scenario {
 		Bounds: bounds,
 		Setup:  func(x *vexp.X) { vsys.CoarseSetupSends() },
 		Body: func(x *vexp.X) {
-			w := vsys.NewWorld(x)
+			var sysOpts []vivid.ActorSystemOption
+			topDec := map[string]vivid.SupervisionDecision{"fail-escalate-resume": vivid.SupervisionDecisionResume, "fail-escalate-grestart": vivid.SupervisionDecisionGracefulRestart, "fail-escalate-gstop": vivid.SupervisionDecisionGracefulStop}
+			if d, ok := topDec[p.state]; ok {
+				// /p escalates the failure of its child t; the system's own strategy (the root's) decides for /p
+				sysOpts = append(sysOpts, vivid.WithActorSystemSupervisionStrategy(vivid.OneForOneStrategy(vivid.SupervisionStrategyDecisionMakerFN(
+					func(vivid.SupervisionContext) (vivid.SupervisionDecision, string) { return d, "scripted top-level decision" }))))
+			}
+			w := vsys.NewWorld(x, sysOpts...)
 			w.Quiet = true
 			w.Start()
 			dec := vivid.SupervisionDecisionStop
 			switch p.state {
 			case "fail-gstop":
 				dec = vivid.SupervisionDecisionGracefulStop
-			case "fail-restart", "zombie":
+			case "fail-escalate-resume", "fail-escalate-grestart", "fail-escalate-gstop":
+				dec = vivid.SupervisionDecisionEscalate
+			case "fail-restart", "zombie", "stash-restart":
 				dec = vivid.SupervisionDecisionRestart
 			case "fail-grestart":
 				dec = vivid.SupervisionDecisionGracefulRestart
@@ -77,7 +86,7 @@ func scenario(p params, bounds []int) *vexp.Scenario {
 				switch {
 				case m.ID == "boom":
 					panic("scripted")
-				case p.state == "stash" && strings.HasPrefix(m.ID, "m") && stashed < 2:
+				case (p.state == "stash" || p.state == "stash-restart") && strings.HasPrefix(m.ID, "m") && stashed < 2:
 					stashed++
 					ctx.Stash()
 				}
@@ -214,10 +223,16 @@ func scenario(p params, bounds []int) *vexp.Scenario {
 				w.Sys.Kill(killRef, false, "driver")
 			case "kill-poison":
 				w.Sys.Kill(killRef, true, "driver")
-			case "fail-stop", "fail-gstop", "fail-restart", "fail-grestart", "fail-resume":
+			case "fail-stop", "fail-gstop", "fail-restart", "fail-grestart", "fail-resume", "fail-escalate-resume", "fail-escalate-grestart", "fail-escalate-gstop":
 				w.Sys.Tell(killRef, vsys.Msg{ID: "boom"})
 			}
 			vrt.QuiesceNoTimers()
+			if p.state == "stash-restart" {
+				// the actor holds stashed mail when it fails on another message and is restarted: the stash belongs to the
+				// reference, it survives (and its content is accounted for like any other message)
+				w.Sys.Tell(killRef, vsys.Msg{ID: "boom"})
+				vrt.QuiesceNoTimers()
+			}
 
 			// ---------------- oracle: conservation ----------------
 			if p.state == "sys-stopped" {
@@ -280,7 +295,8 @@ func scenario(p params, bounds []int) *vexp.Scenario {
 				outcome = append(outcome, fmt.Sprintf("%s:s%d/d%d", id, s, d))
 			}
 			_ = stashBudget
-			mustProcess := p.state == "running" || p.state == "pre-spawn-use" || p.state == "fail-resume" || p.state == "fail-restart" || p.state == "fail-grestart" ||
+			// (an escalated graceful restart / stop concerns /p: its child t is terminated with it, conservation is all that is required there)
+			mustProcess := p.state == "fail-escalate-resume" || p.state == "running" || p.state == "pre-spawn-use" || p.state == "fail-resume" || p.state == "fail-restart" || p.state == "fail-grestart" ||
 				(p.state == "reused" && (p.prov == "parse" || p.prov == "clone")) // FindActor returns the registered Ref object itself, bound to the old incarnation like the ActorOf reference
 			if mustProcess {
 				for _, id := range ids {
@@ -289,7 +305,7 @@ func scenario(p params, bounds []int) *vexp.Scenario {
 					}
 				}
 			}
-			if p.state == "stash" && inStash != stashed {
+			if (p.state == "stash" || p.state == "stash-restart") && inStash != stashed {
 				x.Fail("stash-holds", "actor stashed %d messages but its stash holds %d", stashed, inStash)
 			}
 			// stranded mail: a mailbox that still holds user messages at quiescence, while not paused-alive, lost them
@@ -314,7 +330,7 @@ func build(tier string) []*vexp.Scenario {
 		bounds = []int{0, 1, 2}
 	}
 	var out []*vexp.Scenario
-	states := []string{"stopping-paused", "running", "kill-now", "kill-poison", "killing-slow", "fail-stop", "fail-gstop", "fail-restart", "fail-grestart", "fail-resume", "killed", "reused", "zombie", "sys-stopped", "stash"}
+	states := []string{"fail-escalate-resume", "fail-escalate-grestart", "fail-escalate-gstop", "stash-restart", "stopping-paused", "running", "kill-now", "kill-poison", "killing-slow", "fail-stop", "fail-gstop", "fail-restart", "fail-grestart", "fail-resume", "killed", "reused", "zombie", "sys-stopped", "stash"}
 	provs := []string{"actorof-warm", "actorof-cold", "clone", "parse", "find"}
 	for _, st := range states {
 		for _, pv := range provs {
